@@ -6,6 +6,9 @@ From EG Require Import Model.Geometry Proofs.Geometry Model.Target Proofs.Target
 From Coq Require Import ZifyBool.
 Set Default Timeout 60.
 
+Section WithUsize.
+Context {U : Usize}.
+
 (* the abstraction function: the colour map read through pixel() (None outside; Panic never occurs) *)
 Definition fb_abs (c : fbcfg) (data : list Z) : pixmap :=
   fun p => match fb_pixel c data (px p, py p) with Pix v => v | Panic => None end.
@@ -189,3 +192,5 @@ Lemma fill_ops_ok c a v cs :
 Proof.
   split; [intros H; split; [apply fill_solid_ok|apply clear_ok]; auto | apply fill_contiguous_ok].
 Qed.
+
+End WithUsize.
